@@ -16,7 +16,7 @@ MC_Menu == <<
 (* two more forward programs over the remaining operation families (contraction, data movement, reductions, losses) *)
 MC_MenuMore == <<
   << <<"op", <<S(1), S(2)>>, "dot">>, <<"op", <<S(1)>>, "reshape">>, <<"op", <<S(2)>>, "broadcast">>, <<"op", <<S(1), S(3)>>, "patch">>, <<"op", <<S(1)>>, "varalong">>, <<"op", <<S(1)>>, "tanh">> >>,
-  << <<"op", <<S(1)>>, "pow">>, <<"op", <<Lc(1), S(2)>>, "div">>, <<"op", <<S(1)>>, "leakyrelu">>, <<"op", <<S(1), S(3)>>, "ce">>, <<"op", <<S(3)>>, "maxalong">>, <<"op", <<S(1), S(3)>>, "sub">> >>
+  << <<"op", <<S(1), S(2)>>, "matmul">>, <<"op", <<S(1)>>, "pow">>, <<"op", <<Lc(2), S(2)>>, "div">>, <<"op", <<S(1)>>, "leakyrelu">>, <<"op", <<S(1), S(3)>>, "ce">>, <<"op", <<S(3)>>, "maxalong">>, <<"op", <<S(1), S(3)>>, "sub">> >>
 >>
 MC_Menu8 == MC_Menu \o MC_MenuMore
 (* the same plus a program that violates the proviso (back-propagates through the shared parameter) *)
